@@ -6,7 +6,7 @@
      include/photospline/bspline.h             : bsplvb_simple, bsplvb, bspline_nonzero,
                                                  bspline_deriv_nonzero
      include/photospline/detail/bspline_multi.h: ndsplineeval_multibasis_core (lane-wise), ndsplineeval_gradient
-     src/core/bspline.cpp                      : bspline, bspline_deriv
+     src/core/bspline.cpp                      : bspline, bspline_deriv, bspline_left, bspline_deriv_left
    Conventions: knot indices are [Z] (the code walks to -1 and into the padding), loop counters and
    positions in the small local arrays are [nat]. Integer arithmetic is unbounded (DESIGN §3,
    "Integer widths"). A value of type Float is a [T A] that went through [rnd]. *)
@@ -181,6 +181,32 @@ Fixpoint bspline_deriv (n : nat) (x : K) (i : Z) (order : nat) : K :=
       end
   end.
 
+(** ** bspline_left / bspline_deriv_left (src/core/bspline.cpp): the same with the order-0 indicator continuous from
+      the left (knots[i] < x <= knots[i+1]) *)
+Fixpoint bspline_left (n : nat) (x : K) (i : Z) : K :=
+  match n with
+  | O => if gtb x (kn i) && leb x (kn (i + 1)) then one else zero
+  | S n1 =>
+      let nz := Z.of_nat n in
+      add (div (mul (sub x (kn i)) (bspline_left n1 x i)) (sub (kn (i + nz)) (kn i)))
+          (div (mul (sub (kn (i + nz + 1)) x) (bspline_left n1 x (i + 1))) (sub (kn (i + nz + 1)) (kn (i + 1))))
+  end.
+Fixpoint bspline_deriv_left (n : nat) (x : K) (i : Z) (order : nat) : K :=
+  match n with
+  | O => zero
+  | S n1 =>
+      let nz := Z.of_nat n in
+      let d1 := sub (kn (i + nz)) (kn i) in
+      let d2 := sub (kn (i + nz + 1)) (kn (i + 1)) in
+      match order with
+      | O | S O =>
+          sub (div (mul (ofZ nz) (bspline_left n1 x i)) d1) (div (mul (ofZ nz) (bspline_left n1 x (i + 1))) d2)
+      | S o1 =>
+          sub (div (mul (ofZ nz) (bspline_deriv_left n1 x i o1)) d1)
+              (div (mul (ofZ nz) (bspline_deriv_left n1 x (i + 1) o1)) d2)
+      end
+  end.
+
 End OneDim.
 
 (* ============================================================================================== *)
@@ -233,12 +259,14 @@ Fixpoint localbases_mask (ds : list dimn) (xs : list K) (cs : list Z) (mask : Z)
   end.
 
 (* ndsplineeval_deriv: 0 -> bsplvb_simple, 1 -> bspline_deriv_nonzero, k >= 2 -> the recursive
-   bspline_deriv (double) stored into the Float local basis *)
+   bspline_deriv (double) stored into the Float local basis;
+       auto deriv = (x[n] < knots[n][naxes[n]] ? bspline_deriv : bspline_deriv_left);                         *)
 Definition localbasis_derivk (d : dimn) (x : K) (c : Z) (k : nat) : list K :=
   match k with
   | O => localbasis_val d x c
   | S O => localbasis_der d x c
-  | _ => map (fun i => rnd (bspline_deriv (d_kn d) (d_order d) x (c - Z.of_nat (d_order d) + Z.of_nat i) k))
+  | _ => let deriv := if ltb x (d_kn d (d_naxes d)) then bspline_deriv (d_kn d) else bspline_deriv_left (d_kn d) in
+         map (fun i => rnd (deriv (d_order d) x (c - Z.of_nat (d_order d) + Z.of_nat i) k))
              (seq 0 (S (d_order d)))
   end.
 Fixpoint localbases_derivk (ds : list dimn) (xs : list K) (cs : list Z) (ks : list nat) : list (list K) :=
